@@ -178,6 +178,12 @@ def opt_match(v: Any) -> None:
             print(3)
         case int(real=r) | float(real=r):
             print(r)
+        case int(pos1):
+            print(pos1)
+        case complex(pos2, imag=kw2) as both:
+            print(pos2, kw2, both)
+        case OptC():
+            print(6)
         case str() as s:
             print(s)
         case (x, y) as pair if x:
